@@ -26,6 +26,11 @@ TIME_AXES = {
     "nonuniform": np.array([0.0, 0.01, 0.05, 0.3, 1.0, 2.5, 10.0, 60.0]),
     "zero": np.array([0.0]),
     "long": np.array([0.0, 5.0, 50.0, 500.0, 5000.0]),
+    # the same non-equidistant axis in units a billion times larger (steps far below any absolute tolerance), and an
+    # equidistant axis with one point moved by 5e-7 of a step (inside any relative tolerance): a shortcut for
+    # "equidistant" axes must decide equidistance exactly (seed C04-13)
+    "tiny_steps": np.array([0.0, 0.01, 0.05, 0.3, 1.0, 2.5, 10.0, 60.0]) * 1e-9,
+    "near_uniform": np.linspace(0.0, 6.0, 13) + np.where(np.arange(13) == 5, 2.5e-7, 0.0),
 }
 
 
@@ -370,7 +375,7 @@ def run(run: core.Run):
                         if quick and split == "alternate" and len(st) > 4:
                             continue
                         base = {"n": n, "struct": st, "pattern": pattern, "excited": exc, "weights": w, "split": split,
-                                "times": ["nonuniform", "zero"] if quick else list(TIME_AXES), "seed": run.seed}  # fmt: skip
+                                "times": ["nonuniform", "zero", "tiny_steps", "near_uniform"] if quick else list(TIME_AXES), "seed": run.seed}  # fmt: skip
                         cases.append(base)
             # declaration orders and exclude_from_normalize on one rate pattern
             for order in itertools.permutations(range(n)):
